@@ -1,7 +1,7 @@
 //verif:pkg .
 //verif:use fakes_client
 //verif:use fakes_mcp
-//verif:bound StdioClient state machine over in-memory pipes (the child process is replaced by a scripted peer on the transport's stdin/stdout): one-step induction from the rest states {fresh, initialized, initialized then closed} over every Connector operation x peer behaviour {write fails, JSON-RPC error answer, undecodable result, valid answer} x notification write {ok, fails}; plus all histories of length <= 2 (quick) / 3 (thorough) from a fresh client
+//verif:bound StdioClient state machine over in-memory pipes (the child process is replaced by a scripted peer on the transport's stdin/stdout): one-step induction from the rest states {fresh, initialized, initialized then closed} over every Connector operation x peer behaviour {write fails, JSON-RPC error answer, undecodable result, valid answer} x notification write {ok, fails} x closing the pipes {ok, reports an error}; plus all histories of length <= 2 (quick) / 3 (thorough) from a fresh client
 //verif:assume the real child process (os/exec) is outside the claim: the transport's process field is preset so that no process is started
 package mcp
 
@@ -17,6 +17,7 @@ type c16Peer struct {
 	out           *verifStream
 	requests      int
 	notifications int
+	closeFails    bool // closing the pipe reports an error (e.g. "file already closed" after the child exited)
 }
 
 func (p *c16Peer) Write(b []byte) (int, error) {
@@ -64,7 +65,12 @@ func (p *c16Peer) Write(b []byte) (int, error) {
 	p.out.push(append(line, '\n'))
 	return len(b), nil
 }
-func (p *c16Peer) Close() error { return nil }
+func (p *c16Peer) Close() error {
+	if p.closeFails {
+		return errors.New("file already closed")
+	}
+	return nil
+}
 
 func c16NewStdio() (*StdioClient, *c16Peer) {
 	c, err := NewStdioClient(StdioTransportConfig{ServerParams: StdioServerParameters{Command: "none"}, Timeout: 300 * time.Millisecond},
@@ -72,7 +78,7 @@ func c16NewStdio() (*StdioClient, *c16Peer) {
 	if err != nil {
 		panic(err)
 	}
-	p := &c16Peer{out: newVerifStream()}
+	p := &c16Peer{out: newVerifStream(), closeFails: vBool("closeFails")}
 	t := c.transport
 	t.process = &exec.Cmd{}
 	t.stdin = p
